@@ -11,10 +11,14 @@ import vlib
 from vlib import Violation, coq_Z
 
 import c12_env
-from c12_env import ScriptedEnv, make_env, act_value, encode, pack, MEMBER_SHAPES
+from c12_env import ScriptedEnv, make_env, act_value, encode, pack, describe, kind_name
 
-from agilerl.vector.pz_async_vec_env import AsyncPettingZooVecEnv
-from agilerl.wrappers.pettingzoo_wrappers import PettingZooAutoResetParallelWrapper
+IMPORT_ERROR = None
+try:
+    from agilerl.vector.pz_async_vec_env import AsyncPettingZooVecEnv
+    from agilerl.wrappers.pettingzoo_wrappers import PettingZooAutoResetParallelWrapper
+except Exception as _e:      # entry points renamed / not importable: every case fails closed in run_impl
+    IMPORT_ERROR = f"cannot import AsyncPettingZooVecEnv / PettingZooAutoResetParallelWrapper: {type(_e).__name__}: {_e}"
 
 BAD = 987654321          # decoded value of something that is not an integer tag
 KIND = {"vector": "KVector", "image": "KImage", "discrete": "KDiscrete", "dict": "KDict", "tuple": "KTuple"}
@@ -42,9 +46,10 @@ def to_int(x):
 
 def members_of(kind, v):
     """value of one agent (array | dict | tuple) -> list of member arrays, in the space's order"""
-    if kind == "dict":
+    st = describe(kind)["str"]
+    if st == "dict":
         return [np.asarray(v[k]) for k in v]
-    if kind == "tuple":
+    if st == "tuple":
         return [np.asarray(x) for x in v]
     return [np.asarray(v)]
 
@@ -143,7 +148,17 @@ def cvinfo(i):
 def cenv(case, i, e):
     leave = cl((f"Some {e['leave'][str(a)]}" if str(a) in e.get("leave", {}) else "None") for a in range(case["nag"]))
     return (f"{{| eid := {coq_Z(i)}; nag := {case['nag']}; lens := {cnats(e['lens'])}; mode := {MODE[e['mode']]}; "
-            f"leave := {leave}; kind := {KIND[case['obs']]}; unaligned := {'true' if e.get('unaligned') else 'false'} |}}")
+            f"leave := {leave}; kind := {ckind(case['obs'])}; unaligned := {'true' if e.get('unaligned') else 'false'} |}}")
+
+
+def ckind(kind):
+    if isinstance(kind, str):
+        return KIND[kind]
+    d = describe(kind)
+    st = {"plain": "SPlain", "dict": "SDict", "tuple": "STuple"}[d["str"]]
+    shapes = cl(cnats(m["shape"]) for m in d["members"])
+    uns = cbs(c12_env.is_unsigned(m) for m in d["members"])
+    return f"{{| ostr := {st}; mshapes := {shapes}; munsigned := {uns} |}}"
 
 
 def cseed(s):
@@ -214,7 +229,21 @@ class C12(vlib.Driver):
                 continue
             cases.append({"kind": "vec", "obs": obs, "akind": akind, "nag": nag, "copy": copy,
                           "seed": rng.choice([None, 0, 3, 11]), "envs": envs, "actions": actions(7, nag, 3)})
-        # seeded runs
+        def rand_space():
+            st = rng.choice(["plain", "dict", "tuple"])
+            ms = []
+            for _ in range(1 if st == "plain" else rng.randint(1, 3)):
+                leaf = rng.choice(["box", "box", "box", "discrete", "multidiscrete"])
+                if leaf == "discrete":
+                    ms.append({"leaf": leaf, "shape": [], "dtype": "int64"})
+                elif leaf == "multidiscrete":
+                    ms.append({"leaf": leaf, "shape": rng.choice([[1], [3], [2, 2]]), "dtype": "int64"})
+                else:
+                    ms.append({"leaf": leaf, "shape": rng.choice([[], [1], [3], [4], [2, 2], [1, 2], [3, 1], [2, 1, 3], [2, 2, 2], [1, 1, 1]]),
+                               "dtype": rng.choice(["float32", "float64", "int32", "int64", "uint8"])})
+            return {"str": st, "members": ms}
+
+        # seeded runs (half of them over generated observation spaces: rank 0-3 members, 5 dtypes)
         for _ in range(120 if quick else 1500):
             N = rng.randint(1, 4)
             nag = rng.randint(1, 3)
@@ -227,9 +256,15 @@ class C12(vlib.Driver):
                         leave[str(a)] = rng.randint(1, 4)
                 envs.append({"lens": lens, "mode": rng.choice(["term", "trunc", "mixed"]), "leave": leave})
             steps = rng.randint(6, 12) if quick else rng.randint(6, 14)
-            cases.append({"kind": "vec", "obs": rng.choice(c12_env.OBS_KINDS), "akind": rng.choice(c12_env.ACT_KINDS),
+            cases.append({"kind": "vec", "obs": rng.choice(c12_env.OBS_KINDS) if rng.random() < 0.5 else rand_space(),
+                          "akind": rng.choice(c12_env.ACT_KINDS),
                           "nag": nag, "copy": rng.random() < 0.6, "seed": rng.choice([None, 0, 1, 7, 20]),
                           "envs": envs, "actions": actions(steps, nag, N)})
+        # other multiprocessing start methods (workers import c12_env themselves; ~8 s per run)
+        for ctx, obs in ([("spawn", "dict")] if quick else [("spawn", "dict"), ("spawn", "image"), ("forkserver", "tuple"), ("forkserver", "vector")]):
+            envs = [{"lens": [2], "mode": "trunc", "leave": {}}, {"lens": [3, 1], "mode": "term", "leave": {"1": 1}}]
+            cases.append({"kind": "vec", "obs": obs, "akind": "box2", "nag": 2, "copy": True, "seed": 2, "context": ctx,
+                          "envs": envs, "actions": actions(6, 2, 2)})
         # environments whose truncation dict lists the agents in another order than the termination dict
         for obs, lv, copy in itertools.product(("vector", "tuple"), range(3), (True, False)):
             nag = 2 if lv < 2 else 3
@@ -264,8 +299,10 @@ class C12(vlib.Driver):
 
     # ---------- implementation
     def run_impl(self, case):
+        if IMPORT_ERROR:
+            raise RuntimeError(IMPORT_ERROR)
         old = signal.signal(signal.SIGALRM, _alarm)
-        signal.alarm(RUN_TIMEOUT)
+        signal.alarm(RUN_TIMEOUT + (60 if case.get("context") else 0))
         try:
             return self.run_vec(case) if case["kind"] == "vec" else self.run_wrap(case)
         finally:
@@ -276,7 +313,7 @@ class C12(vlib.Driver):
         N, nag, kind, akind = len(case["envs"]), case["nag"], case["obs"], case["akind"]
         fns = [make_env(env_params(case, i, e)) for i, e in enumerate(case["envs"])]
         obs_out = {"reset": None, "steps": [], "error": None, "counters": None, "stale": []}
-        ve = AsyncPettingZooVecEnv(fns, copy=case["copy"])
+        ve = AsyncPettingZooVecEnv(fns, copy=case["copy"], context=case.get("context"))
         handed = []
         try:
             try:
@@ -336,7 +373,7 @@ class C12(vlib.Driver):
     def coq_term(self, case, obs):
         if obs["error"] is not None or obs["reset"] is None or obs["counters"] is None:
             return "false"          # the model has no failing runs
-        k = KIND[case["obs"]]
+        k = "(" + ckind(case["obs"]) + ")"
         if case["kind"] == "vec":
             N, nag = len(case["envs"]), case["nag"]
             agents = cnats(range(nag))
@@ -376,13 +413,14 @@ class C12(vlib.Driver):
 
     def oracle_vec(self, case, obs):
         N, nag, kind, akind = len(case["envs"]), case["nag"], case["obs"], case["akind"]
-        site = f"{kind}"
+        site = kind_name(kind)
         if obs["error"] is not None:
             e = obs["error"]
             return [Violation("no-exception", f"vec:exception:{e['type']}",
                               f"vec_env raised {e['type']} at step {e['step']}: {e['msg']}")]
         space = c12_env.obs_space(kind)
-        mspaces = list(space.spaces.values()) if kind == "dict" else list(space.spaces) if kind == "tuple" else [space]
+        st = describe(kind)["str"]
+        mspaces = list(space.spaces.values()) if st == "dict" else list(space.spaces) if st == "tuple" else [space]
         refs = [Reference(env_params(case, i, e), None if case["seed"] is None else case["seed"] + i)
                 for i, e in enumerate(case["envs"])]
 
@@ -406,7 +444,7 @@ class C12(vlib.Driver):
             return out, bad
 
         def placeholder(sp):
-            v = 255 if sp.dtype == np.uint8 else -1
+            v = 255 if sp.dtype == np.uint8 else 65535 if sp.dtype == np.uint16 else -1
             return [v] * int(np.prod(sp.shape))
 
         def info_at(cinfo, a, i):
@@ -551,11 +589,15 @@ class C12(vlib.Driver):
     def classify(self, case, obs):
         n_reset, inter, absent, plain = self._trace(case)
         envs = case["envs"] if case["kind"] == "vec" else [case["env"]]
-        labs = [f"kind={case['kind']}", f"obs={case['obs']}", f"act={case['akind']}", f"agents={case['nag']}",
+        d = describe(case["obs"])
+        olab = case["obs"] if isinstance(case["obs"], str) else "generated-" + d["str"]
+        labs = [f"kind={case['kind']}", f"obs={olab}", f"act={case['akind']}", f"agents={case['nag']}",
                 f"seed={'none' if case['seed'] is None else 'int'}"]
         if case["kind"] == "vec":
-            labs += [f"num_envs={len(envs)}", f"copy={case['copy']}"]
+            labs += [f"num_envs={len(envs)}", f"copy={case['copy']}", f"context={case.get('context') or 'default(fork)'}"]
         labs += sorted({f"end={e['mode']}" for e in envs})
+        labs += sorted({f"dtype={m['dtype']}" for m in d["members"]} | {f"rank={len(m['shape'])}" for m in d["members"]}
+                       | {f"leaf={m['leaf']}" for m in d["members"]})
         labs.append("leavers" if any(e.get("leave") for e in envs) else "no-leavers")
         if any(e.get("unaligned") for e in envs):
             labs.append("unaligned-dicts")
